@@ -10,6 +10,7 @@ from __future__ import annotations
 
 import copy
 import logging
+import sys
 import threading
 from collections.abc import Sized
 from types import ModuleType
@@ -405,9 +406,10 @@ class RemoteAssertionTraceObserver(ex.RemoteExecutionObserver):
         imports the SUT module (under its alias) plus builtins; it does not
         track and import arbitrary modules referenced by assertions. An
         ``IsInstanceAssertion`` is therefore only safe for builtins or types
-        defined in the SUT module itself -- anything else falls back to the
-        always-safe ``TypeNameAssertion``, which only compares string names
-        and needs no import.
+        defined in the SUT module itself, provided they can be looked up there
+        by their qualified name -- anything else falls back to the always-safe
+        ``TypeNameAssertion``, which only compares string names and needs no
+        import.
 
         Args:
             typ: The type to check.
@@ -417,9 +419,15 @@ class RemoteAssertionTraceObserver(ex.RemoteExecutionObserver):
         """
         if not hasattr(typ, "__module__") or not hasattr(typ, "__qualname__"):
             return False
-        if typ.__module__ == "builtins":
-            return True
-        return typ.__module__ == config.configuration.module_name
+        if typ.__module__ not in {"builtins", config.configuration.module_name}:
+            return False
+        # The type must also be reachable under its name: this is not the case
+        # for, e.g., builtins.dict_keys, classes defined inside a function, or
+        # classes created at run time.
+        resolved: Any = sys.modules.get(typ.__module__)
+        for part in typ.__qualname__.split("."):
+            resolved = getattr(resolved, part, None)
+        return resolved is typ
 
 
 class RemoteAssertionVerificationObserver(ex.RemoteExecutionObserver):
